@@ -41,7 +41,18 @@ verif_harness! { c10_t4_slot_addr, 2, {
 // ---- shared device builder ----------------------------------------------------------------------------------
 const DEV_PAGES: usize = 3;
 
+/// Kani 0.68 does not collect `<dyn Any>::is::<T>` when it is reached only through the trait-upcast in
+/// `<dyn IoB>::try_into_io_slice_mut` ("missing_definition": the call then returns an arbitrary bool).  Naming the
+/// instances here makes the compiler emit them; the real downcast code is executed unchanged.
+fn force_any_instances() {
+    let a: Box<dyn std::any::Any> = Box::new(crate::io::bytes::IoSliceMut::new(PAGE));
+    assert!(a.is::<crate::io::bytes::IoSliceMut>());
+    assert!(!a.is::<crate::io::bytes::IoSlice>());
+    std::mem::forget(a);
+}
+
 fn mk_dev(part_pages: [usize; 2]) -> (Arc<MemDev<DEV_PAGES>>, Vec<Arc<dyn Partition>>, Arc<dyn IoEngine>) {
+    force_any_instances();
     let dev = Arc::new(MemDev::<DEV_PAGES>::zeroed());
     let mut parts: Vec<Arc<dyn Partition>> = Vec::with_capacity(2);
     let mut base_pages = [0usize; 4];
@@ -233,6 +244,61 @@ verif_harness! { c03_d4_tombstone_read, 18, {
     while i < 16 { assert!(out[i] == b[i]); i += 1; }
     kani::cover!(true, "end reached");
 } }
+
+// ---------------------------------------------------------------------------------------------------------------------
+// I/O environment stubs for PageBuffer (the page-granular device access underneath the log).  The shipped bodies end in
+// `<dyn IoB>::try_into_io_slice_mut` (trait upcast to `dyn Any`, no body under Kani's vtable restriction) and in `?` on a
+// `Result<_, Error>` whose drop glue CBMC explores for minutes.  The stubs perform the SAME device access through the
+// same `IoEngine` object with an unchecked downcast and no error path (the harness engine cannot fail).  `locate` runs
+// as shipped.  TombstoneLog::{open, append} - tail recovery, slot addressing, flush-before-load order - run as shipped.
+// ---------------------------------------------------------------------------------------------------------------------
+fn unchecked_io_slice_mut(b: Box<dyn crate::io::bytes::IoB>) -> IoSliceMut {
+    let raw = Box::into_raw(b) as *mut IoSliceMut;
+    *unsafe { Box::from_raw(raw) }
+}
+impl PageBuffer {
+    pub async fn verif_open(io_engine: Arc<dyn IoEngine>, partitions: Vec<Arc<dyn Partition>>, page: u32) -> Result<Self> {
+        let mut this = Self { buffer: Some(IoSliceMut::new(PAGE)), io_engine, partitions, page };
+        this.verif_update().await?;
+        Ok(this)
+    }
+    pub async fn verif_update(&mut self) -> Result<()> {
+        let buf = self.buffer.take().unwrap();
+        let (partition, offset) = self.locate(self.page);
+        let (buf, res) = self.io_engine.read(Box::new(buf), self.partitions[partition].as_ref(), offset).await;
+        self.buffer = Some(unchecked_io_slice_mut(buf));
+        std::mem::forget(res);
+        Ok(())
+    }
+    pub async fn verif_flush(&mut self) -> Result<()> {
+        let buf = self.buffer.take().unwrap();
+        let (partition, offset) = self.locate(self.page);
+        let (buf, res) = self.io_engine.write(Box::new(buf), self.partitions[partition].as_ref(), offset).await;
+        self.buffer = Some(unchecked_io_slice_mut(buf));
+        std::mem::forget(res);
+        Ok(())
+    }
+}
+macro_rules! tomb_harness {
+    ($name:ident, $unwind:expr, $body:block) => {
+        verif_harness! {
+            #[kani::stub(crate::engine::block::tombstone::PageBuffer::open, crate::engine::block::tombstone::PageBuffer::verif_open)]
+            #[kani::stub(crate::engine::block::tombstone::PageBuffer::update, crate::engine::block::tombstone::PageBuffer::verif_update)]
+            #[kani::stub(crate::engine::block::tombstone::PageBuffer::flush, crate::engine::block::tombstone::PageBuffer::verif_flush)]
+            $name, $unwind, $body
+        }
+    };
+}
+tomb_harness!(exp_e_pagebuffer_stubbed, 8, {
+    let (dev, parts, io) = mk_dev([2, 0]);
+    let mut buffer = block_on(PageBuffer::open(io.clone(), parts.clone(), 1), 4).unwrap();
+    let h: u64 = kani::any();
+    buffer.as_mut()[16..24].copy_from_slice(&h.to_be_bytes());
+    block_on(buffer.flush(), 4).unwrap();
+    assert!(dev.page(1)[16] == h.to_be_bytes()[0]);
+    kani::cover!(true, "end reached");
+    std::mem::forget(buffer);
+});
 
 // native replay of counterexamples: bin/check writes the unit test Kani generated (`--concrete-playback=print`) into the
 // included file and runs `cargo kani playback`; the file is empty otherwise.
